@@ -509,6 +509,54 @@ func siteTable(c *core.Ctx, rule string, sites []site, rows []siteRow, floor int
 	c.Floor(rule+" sites", len(sites), floor)
 }
 
+// derefLocal replaces an identifier that names a local with exactly one assignment (its := declaration) by the
+// defining expression, so that a hoisted sub-expression is seen through; anything else is returned unchanged.
+func derefLocal(f *core.FuncInfo, x ast.Expr) ast.Expr {
+	for depth := 0; depth < 3; depth++ {
+		id, ok := ast.Unparen(x).(*ast.Ident)
+		if !ok {
+			return x
+		}
+		v, ok := f.Info().ObjectOf(id).(*types.Var)
+		if !ok || v.IsField() || v.Pkg() == nil || v.Parent() == v.Pkg().Scope() {
+			return x
+		}
+		var def ast.Expr
+		n := 0
+		ast.Inspect(f.Root().Body, func(nd ast.Node) bool {
+			switch s := nd.(type) {
+			case *ast.AssignStmt:
+				for i, l := range s.Lhs {
+					if lid, ok := l.(*ast.Ident); ok && f.Info().ObjectOf(lid) == types.Object(v) {
+						n++
+						if s.Tok.String() == ":=" && len(s.Lhs) == len(s.Rhs) {
+							def = s.Rhs[i]
+						} else {
+							n += 10
+						}
+					}
+				}
+			case *ast.IncDecStmt:
+				if lid, ok := s.X.(*ast.Ident); ok && f.Info().ObjectOf(lid) == types.Object(v) {
+					n += 10
+				}
+			case *ast.RangeStmt:
+				for _, l := range []ast.Expr{s.Key, s.Value} {
+					if lid, ok := l.(*ast.Ident); ok && f.Info().ObjectOf(lid) == types.Object(v) {
+						n += 10
+					}
+				}
+			}
+			return true
+		})
+		if n != 1 || def == nil {
+			return x
+		}
+		x = def
+	}
+	return x
+}
+
 // eofEstablished reads the recorded branch outcomes of a path: 1 = some comparison established `x == io.EOF`,
 // 2 = established `x != io.EOF`, 0 = neither (independent of how the test is written: ==, != or inside &&/||).
 func eofEstablished(st core.State) int {
